@@ -98,10 +98,15 @@ type Exec struct {
 	feasQ         int
 	bufInputs     []BufInput
 	lastPanic     string
+	pending       []pendingPanic
+	watchOff      bool
 	Shared        *Shared
 	endWhy        string
 	inconcl       string
 	b58           []b58rec
+	watch     map[*Cell]*Cell   // cell -> mutex cell that must be held on access
+	watchBuf  map[*SymBuf]*Cell
+	watchHits int
 	SweepSupports int
 	SweepMs       int64
 	// statistics
@@ -149,12 +154,33 @@ func (e *Exec) load(c *Cell) Value {
 		}
 		return a
 	}
+	if e.watch != nil {
+		e.checkWatch(c, "read")
+	}
 	if c.base && e.ovl != nil {
 		if v, ok := e.ovl[c]; ok {
 			return v
 		}
 	}
 	return c.V
+}
+
+func (e *Exec) checkWatch(c *Cell, what string) {
+	if mu, ok := e.watch[c]; ok && !e.watchOff {
+		e.watchHits++
+		if !e.lockHeld[mu] {
+			e.check("assert", "lock:unlocked-"+what+"@"+e.frame.fn.Name(), smt.False)
+		}
+	}
+}
+
+func (e *Exec) checkWatchBuf(b *SymBuf, what string) {
+	if mu, ok := e.watchBuf[b]; ok && !e.watchOff {
+		e.watchHits++
+		if !e.lockHeld[mu] {
+			e.check("assert", "lock:unlocked-"+what+"@"+e.frame.fn.Name(), smt.False)
+		}
+	}
 }
 
 func (e *Exec) guarded() bool { return e.guard != nil && !e.guard.IsTrue() }
@@ -178,6 +204,9 @@ func (e *Exec) store(c *Cell, v Value) {
 			e.store(s, a.E[i])
 		}
 		return
+	}
+	if e.watch != nil {
+		e.checkWatch(c, "write")
 	}
 	if e.guarded() {
 		old := e.load(c)
@@ -439,10 +468,102 @@ func (e *Exec) panicCheck(what string, ok *smt.Term) {
 		e.guard = nil
 		panic(goPanic{msg: what})
 	}
+	if e.Cfg.BatchPanics && !ok.IsFalse() {
+		c := ok
+		if e.guarded() {
+			c = smt.Implies(e.guard, ok)
+		}
+		if c.IsTrue() {
+			return
+		}
+		e.pending = append(e.pending, pendingPanic{label: label, ok: c, where: e.where(), pcIndex: len(e.pc)})
+		e.pc = append(e.pc, c)
+		if len(e.pending) >= 64 {
+			e.flushPanics()
+		}
+		return
+	}
 	if !e.check("panic", label, ok) {
 		// reported; continue on the non-panicking side
 	}
 	e.assume(ok)
+}
+
+type pendingPanic struct {
+	label   string
+	ok      *smt.Term
+	where   string
+	pcIndex int
+}
+
+// flushPanics discharges all pending implicit panic checks of this path in one query:
+// (pc without the assumed checks) ∧ ¬(ok_1 ∧ … ∧ ok_n) must be unsatisfiable.
+func (e *Exec) flushPanics() {
+	if len(e.pending) == 0 {
+		return
+	}
+	pend := e.pending
+	e.pending = nil
+	skip := map[int]bool{}
+	var oks []*smt.Term
+	for _, p := range pend {
+		skip[p.pcIndex] = true
+		oks = append(oks, p.ok)
+	}
+	sc := &smt.Script{Extra: e.extra}
+	for i, c := range e.pc {
+		if !skip[i] {
+			sc.Asserts = append(sc.Asserts, c)
+		}
+	}
+	sc.Asserts = append(sc.Asserts, smt.Not(smt.And(oks...)))
+	sc.Get = e.inputTerms()
+	a := e.Solver.Check(sc, e.Cfg.TimeoutMs)
+	ob := Obligation{Label: fmt.Sprintf("panic-batch(%d checks, first: %s)", len(pend), pend[0].label), Harness: e.Cfg.Name, Kind: "panic", Where: pend[0].where, Millis: a.Millis}
+	switch a.Res {
+	case smt.Unsat:
+		ob.Verdict = "unsat"
+		e.obls = append(e.obls, ob)
+	case smt.Sat:
+		// find which check fails: re-check individually in path order (earlier ones assumed)
+		for k, p := range pend {
+			sc2 := &smt.Script{Extra: e.extra}
+			for i, c := range e.pc {
+				if i < p.pcIndex {
+					sc2.Asserts = append(sc2.Asserts, c)
+				}
+			}
+			sc2.Asserts = append(sc2.Asserts, smt.Not(p.ok))
+			sc2.Get = e.inputTerms()
+			a2 := e.Solver.Check(sc2, e.Cfg.TimeoutMs)
+			if a2.Res == smt.Unsat {
+				continue
+			}
+			o := Obligation{Label: p.label, Harness: e.Cfg.Name, Kind: "panic", Where: p.where, Millis: a2.Millis, Trace: append([]Decision(nil), e.trace...)}
+			if a2.Res == smt.Sat {
+				o.Verdict = "sat"
+				o.Model = map[string]string{}
+				_, names := (&smt.Script{Get: sc2.Get}).Render()
+				for i, in := range e.inputs {
+					if v, ok := a2.Model[names[i]]; ok {
+						if b, ok := smt.ParseValue(v); ok {
+							o.Model[in.Name] = b.String()
+						}
+					}
+				}
+			} else {
+				o.Verdict = "unknown"
+				o.Note = a2.Err
+			}
+			e.obls = append(e.obls, o)
+			_ = k
+			break
+		}
+	default:
+		ob.Verdict = "unknown"
+		ob.Note = a.Err
+		e.obls = append(e.obls, ob)
+	}
 }
 
 func (e *Exec) raisePanic(what string) {
@@ -975,6 +1096,20 @@ func (e *Exec) instr(fr *Frame, ins ssa.Instruction) {
 	case *ssa.Slice:
 		fr.vals[x] = e.sliceOp(fr, x)
 	case *ssa.MakeSlice:
+		et0 := x.Type().Underlying().(*types.Slice).Elem()
+		if lt := e.toIdx64(e.term(fr, x.Len), x.Len.Type()); !lt.IsConst() && x.Len == x.Cap {
+			if b, ok := et0.Underlying().(*types.Basic); ok && b.Kind() == types.Uint8 && e.Cfg.SymbolicMake {
+				// make([]byte, n) with symbolic n: a zero-filled symbolic-length buffer
+				lim := smt.BVC(64, uint64(e.Cfg.MaxAlloc))
+				e.panicCheck("makeslice: len out of range", smt.BvCmp(smt.OBvSle, smt.BVC(64, 0), lt))
+				if e.feasible(smt.BvCmp(smt.OBvUlt, lim, lt)) {
+					e.bound("allocation length may exceed MaxAlloc")
+					e.assume(smt.BvCmp(smt.OBvUle, lt, lim))
+				}
+				fr.vals[x] = &Slice{Buf: &SymBuf{Arr: smt.ConstArr(0), Len: lt}}
+				return
+			}
+		}
 		n := int(e.concretize(e.term(fr, x.Len), "make len"))
 		c := int(e.concretize(e.term(fr, x.Cap), "make cap"))
 		if n < 0 || c < n {
@@ -1078,6 +1213,9 @@ func (e *Exec) storePtr(p *Pointer, v Value) {
 			e.guard = sg
 		}
 	case p.Buf != nil:
+		if e.watchBuf != nil {
+			e.checkWatchBuf(p.Buf, "write")
+		}
 		t := v.(*smt.Term)
 		na := smt.Store(p.Buf.Arr, p.BufIdx, t)
 		if e.guarded() {
@@ -1097,6 +1235,9 @@ func (e *Exec) loadPtr(p *Pointer) Value {
 	case p.Arr != nil:
 		return e.selectCells(p.Arr, p.Idx)
 	case p.Buf != nil:
+		if e.watchBuf != nil {
+			e.checkWatchBuf(p.Buf, "read")
+		}
 		return smt.Select(p.Buf.Arr, p.BufIdx)
 	}
 	e.raisePanic("nil pointer dereference")
